@@ -2186,9 +2186,9 @@ class Intervals:
                 n = int(m.group(1))
                 r = (n, n)
         if t is not None:
-            r2 = st.iv.get(t)
+            r2 = self.trng(st, t)
             if r2 is not None:
-                r = r2 if r is None else clamp_to(r, r2)
+                r = r2 if r is None else (clamp_to(r, r2) if r2[0] <= r[1] and r2[1] >= r[0] else r)
         if r is None:
             r = (0, ISIZE_MAX)
         return t, r
